@@ -158,3 +158,5 @@ func (p *vfProcess) deliverExit(pid gen.PID, reason error) {
 }
 
 func factoryNil() gen.ProcessBehavior { return nil }
+
+func errorsIs(err, target error) bool { return errors.Is(err, target) }
